@@ -246,6 +246,9 @@ func (e *Engine) VerifyLemma(key string) *FuncResult {
 				pt, err := e.evalType(pk, exprString2(f.Type))
 				if err != nil {
 					if ts := exprString2(f.Type); e.Spec.Sorts[ts] {
+						if a, ok := e.Spec.Alias[ts]; ok {
+							ts = a
+						}
 						for _, n := range f.Names {
 							names[n.Name] = Val{T: c.fresh(n.Name, ts)}
 						}
